@@ -202,10 +202,8 @@ type scen struct {
 	// genesis root returned by the first InitChain of this scenario
 	genesis     []byte
 	haveGenesis bool
-	// no successful SetFinal since the last exec/reexec: re-executing the last block must be harmless
-	pure   bool
-	height uint64
-	dead   bool // an instance could not be (re)created; remaining ops print "dead"
+	height      uint64
+	dead        bool // an instance could not be (re)created; remaining ops print "dead"
 }
 
 func (s *scen) close() {
@@ -311,7 +309,7 @@ func runC15(c *hx.Ctx) {
 		}
 		if o.Verb == "reset" {
 			s.close()
-			s = &scen{pure: true}
+			s = &scen{}
 			var e1, e2 error
 			s.a, e1 = newInst()
 			s.b, e2 = newInst()
@@ -344,7 +342,6 @@ func runC15(c *hx.Ctx) {
 					c.Report("C15/root-depends-on/exec-result-differs", fmt.Sprintf("the same block is accepted by one instance and rejected by the other: a=%s b=%s", ra, rb))
 				}
 				sc.compareAB(c, "exec")
-				sc.pure = true
 				if hasErr(ra) {
 					c.Hit("exec/" + ra)
 				} else {
@@ -355,12 +352,13 @@ func runC15(c *hx.Ctx) {
 				before := sc.rootB
 				rb, after := sc.execOn(c, sc.b, "b", sc.last, before)
 				sc.rootB = after
-				if sc.pure && !bytes.Equal(before, after) {
+				// only b-only operations (which must not touch the hashed entries) happened since the
+				// exec: re-executing that block must be harmless whatever was finalized in between
+				if !bytes.Equal(before, after) {
 					c.Report("C15/reexec/changed-root", fmt.Sprintf("re-executing the block that was just executed changed the root: %q -> %q", before, after))
 					sc.explained = true
 				}
 				sc.compareAB(c, "reexec")
-				sc.pure = true
 				c.Hit("reexec")
 				return "b=" + rb
 			case "final":
@@ -371,11 +369,15 @@ func runC15(c *hx.Ctx) {
 				c.Hit("final")
 				return sc.bOnly(c, "finalize", func() string {
 					err := sc.b.ex.SetFinal(ctx, h)
+					res := "ok"
 					if err != nil {
-						return errClass(err)
+						res = errClass(err)
 					}
-					sc.pure = false
-					return "ok"
+					// the recorded height is part of the observation (SetFinal must keep recording it)
+					if v, ok := sc.b.ex.GetStoreValue(ctx, "/finalizedHeight"); ok {
+						return res + " fin=" + hx.Hex([]byte(v))
+					}
+					return res + " fin=none"
 				})
 			case "inject":
 				n := 1
